@@ -69,6 +69,20 @@ func (s *Snapshot) AddFixtures(verifDir string) error {
 	return nil
 }
 
+// AddProbes copies /verif/probes/<name> (generator configurations owned by the framework: a gqlgen.yml and its SDL) to
+// <module>/verif_probes/<name> inside the snapshot, where the repository's generator driver materialises them like the
+// repository's own configurations.
+func (s *Snapshot) AddProbes(verifDir string) error {
+	src := filepath.Join(verifDir, "probes")
+	if _, err := os.Stat(src); err != nil {
+		return nil
+	}
+	if out, err := exec.Command("rsync", "-a", "--exclude", "*.go", src+"/", filepath.Join(s.Dir, "verif_probes")+"/").CombinedOutput(); err != nil {
+		return fmt.Errorf("probes rsync: %v: %s", err, out)
+	}
+	return nil
+}
+
 func (s *Snapshot) Close() {
 	if s != nil && s.base != "" {
 		os.RemoveAll(s.base)
